@@ -53,8 +53,40 @@ let trunc_step cs os =
       else ["BAD\tside=impl\tclause=a pull whose compressed stream was incomplete published a file or left a temp file (or reported success)"]
     end
 
+(* fault=drop:k: the future of an async pull-to-file was dropped in mid-transfer (a select! whose other
+   branch completed, an aborted task) while the producer stalled after k bytes: an interrupted pull.
+   Property text: "A pull-to-file publishes the destination only after the whole stream arrived ...
+   If the producer fails, the connection drops, ... the destination path is left exactly as it was
+   (absent, or its previous content) ... and a failed in-process pull leaves no temporary file."
+   The commit model has no such fault: the line is judged by the extracted oracle alone, with "a
+   connection cut before anything arrived" standing in as the fault (ok_C10 only asks whether
+   something went wrong).  The harness looks at the directory after the puller's detached decoder
+   thread had time to wind down; res=err says that the caller was never told of a success. *)
+let drop_step cs os =
+  let f = fields cs and o = fields os in
+  match get_opt o "crash" with
+  | Some c -> ["BAD\tside=impl\tclause=crash:" ^ c]
+  | None ->
+    let stream = bytes_of_hex (get f "stream") in
+    let wire = let w = get f "wire" in if w = "=" then stream else bytes_of_hex w in
+    let case = { SvsCommit.c_puller = parse_puller (get f "pu"); c_stream = stream; c_wire = wire;
+                 c_comp = (get f "comp" = "1"); c_chunk = n_of_hex (get f "chunk");
+                 c_trailer = n_of_hex (get f "trailer"); c_dst = parse_content (get f "dst");
+                 c_tmp = parse_content (get f "tmp"); c_fault = SvsCommit.FCut (n_of_int 0) } in
+    if not (SvsCommit.c10_wf case) then failwith "drop: case outside the model's domain (c10_wf = false)";
+    let impl = { SvsCommit.o_res = parse_res (get o "res"); o_dst = parse_content (get o "dst");
+                 o_tmp = (get o "tmp" = "1") } in
+    if SvsCommit.ok_C10 case impl then []
+    else if impl.SvsCommit.o_res = SvsCommit.ROk then ["BAD\tside=impl\tclause=a pull whose producer stalled in mid-stream reported success"]
+    else [Printf.sprintf "BAD\tside=impl\tclause=a pull whose future was dropped in mid-transfer %s (destination now %s, before %s)"
+            (if impl.SvsCommit.o_tmp then "left its temp file behind" else "published a file")
+            (trunc (show_content impl.SvsCommit.o_dst)) (trunc (show_content case.SvsCommit.c_dst))]
+
+let starts p s = String.length s >= String.length p && String.sub s 0 (String.length p) = p
+
 let step _ cs os =
   if get_opt (fields cs) "fault" = Some "trunc" then trunc_step cs os else
+  if (match get_opt (fields cs) "fault" with Some s -> starts "drop:" s | None -> false) then drop_step cs os else
   let f = fields cs and o = fields os in
   let stream = bytes_of_hex (get f "stream") in
   let wire = let w = get f "wire" in if w = "=" then stream else bytes_of_hex w in
